@@ -164,7 +164,22 @@ impl Ldap {
         m.0 = last;
         m.1 = in_use.iter().copied().collect();
     }
+    /// The next operation to allocate a message id stops right after the allocation, before
+    /// its request is handed to the driver, until the returned sender fires or is dropped
+    /// (a caller thread preempted between the two steps).
+    pub fn verif_hold_next_alloc() -> oneshot::Sender<()> {
+        let (tx, rx) = oneshot::channel();
+        VERIF_ALLOC_GATES.lock().unwrap().push_back(rx);
+        tx
+    }
+    pub fn verif_clear_alloc_gates() {
+        VERIF_ALLOC_GATES.lock().unwrap().clear();
+    }
 }
+
+#[cfg(ldap3_verif)]
+static VERIF_ALLOC_GATES: Mutex<std::collections::VecDeque<oneshot::Receiver<()>>> =
+    Mutex::new(std::collections::VecDeque::new());
 
 impl Ldap {
     fn next_msgid(&mut self) -> i32 {
@@ -205,6 +220,13 @@ impl Ldap {
     ) -> Result<(LdapResult, Exop, SaslCreds)> {
         let id = self.next_msgid();
         self.last_id = id;
+        #[cfg(ldap3_verif)]
+        {
+            let gate = VERIF_ALLOC_GATES.lock().unwrap().pop_front();
+            if let Some(gate) = gate {
+                let _ = gate.await;
+            }
+        }
         // Search options only apply to the operation they were given for; a Search has taken
         // them by this point, any other operation discards them.
         self.search_opts = None;
